@@ -157,8 +157,8 @@ theorem gstep_inv {g : G} (op : Op) (hi : RingInv g) : RingInv (gstep g op) := b
               · intro k hk1 hk2
                 simp only [next_round] at hk2
                 rw [hcur hne0 k hk1 hk2]
-                simp only [Obs.next, hr0, if_false]
-                exact ⟨hpos.1, hpos.2.1, hpos.2.2, rfl, rfl, rfl⟩
+                simp only [Obs.next, hr0, if_false, and_self, and_true]
+                exact hpos
             split
             · refine Linked.snoc _ hlinked.tail (fun a ha => key a ?_)
               rw [List.getLast?_tail] at ha
@@ -190,11 +190,12 @@ theorem gstep_inv {g : G} (op : Op) (hi : RingInv g) : RingInv (gstep g op) := b
       refine ⟨hpair', by simpa only [hsp] using hshape, ?_, ?_, ?_, ?_, ?_⟩
       · simp only [hsp]
         refine Linked.congr g.s.round (fun k hk => ?_) (fun o ho => ?_) hlinked
-        · simp only []; rw [if_neg (by omega)]
+        · rw [if_neg (by omega)]
         · exact (hbnd o (mem_logical.mp ho)).2
       · intro o ho
         simp only [hsp] at ho
         have := hbnd o ho
+        show 1 ≤ o.round ∧ o.round ≤ s'.round
         exact ⟨this.1, by omega⟩
       · simp only [hsp]; omega
       · intro h; simp only [hsp] at h; simp only [e1, e2, e3]; exact hlive h
